@@ -83,7 +83,9 @@ def tx_cases(draw, tier="quick"):
         hi = lo
     whole = draw(st.sampled_from([False, False, False, True]))
     return {"grid": list(given), "lat_us": lat, "evs": evs, "markov": markov, "warm_us": warm,
-            "fold": None if whole else [lo, hi]}
+            "fold": None if whole else [lo, hi],
+            # optionally a fixed-length episode whose start is sampled (numpy seed from the case)
+            "episode_length": draw(st.sampled_from([None, None, 2, 3, 4])), "np_seed": draw(st.integers(0, 2 ** 20))}
 
 
 def tx_model(case):
@@ -115,8 +117,15 @@ def run_tx(case):
     fold = "f" if folds else "training-set"
     stats = {"latent": 0, "history": 0}
     sweeps = []
+    L = case.get("episode_length")
+    if L is not None and L > len(steps):
+        L = None              # a length that does not fit is C15's business
     for sweep in range(2):
-        tr._reset(fold)
+        if L is not None:
+            np.random.seed(case["np_seed"])
+            tr._reset(fold, L)
+        else:
+            tr._reset(fold)
         got = []
         while True:
             try:
@@ -131,6 +140,20 @@ def run_tx(case):
     got = sweeps[0]
     if sweeps[1] != got:
         res.fail("second sweep over the same fold differs from the first")
+    if L is not None:
+        # the sampled start is read off the first batch; everything else follows from the model
+        res.tag("episode-length")
+        if not got:
+            res.fail("an episode of %d timesteps fits the fold (%d steps) but nothing was delivered" % (L, len(steps)))
+            return finish_tx(res, case, stats, undeliverable)
+        starts = [k for k in steps if grid[k] == got[0][2]]
+        if not starts or steps.index(starts[0]) + L > len(steps):
+            res.fail("episode of %d timesteps starts at %s, not a position where it fits the fold" % (L, got[0][2]))
+            return finish_tx(res, case, stats, undeliverable)
+        i0 = steps.index(starts[0])
+        steps = steps[i0:i0 + L]
+        if i0 > 0:
+            res.tag("episode-starts-inside-fold")
     if len(got) != len(steps):
         res.fail("%d batches delivered, model expects %d steps (event-bearing timesteps inside the fold)" % (len(got), len(steps)))
         return finish_tx(res, case, stats, undeliverable)
@@ -236,7 +259,7 @@ def env_cases(draw, tier="quick"):
     names = list(folds) or ["training-set"]
     episodes = draw(st.lists(st.sampled_from(names), min_size=2, max_size=3))
     return {"grid": grid, "lat_us": lat, "events": [list(e) for e in events], "markov": markov, "warm_us": warm,
-            "folds": folds, "episodes": episodes}
+            "folds": folds, "episodes": episodes, "inherited_observer": draw(st.sampled_from([False, True]))}
 
 
 def env_model(case, fold):
@@ -322,7 +345,8 @@ def run_env(case):
     for i, (s, kind, val) in enumerate(case["events"]):
         events.append(EventNBBO(E.dt(s), etf, val, val) if kind == "Q" else E.Ping(E.dt(s), i, val))
     tr.add_events(events)
-    env = TradingEnv(action_space=BoxPortfolio([etf], low=-1.0, high=1.0), state=E.RecState(), reward=RW.RewardSimpleReturn(),
+    state = E.InheritingRecState() if case.get("inherited_observer") else E.RecState()
+    env = TradingEnv(action_space=BoxPortfolio([etf], low=-1.0, high=1.0), state=state, reward=RW.RewardSimpleReturn(),
                      transmitter=tr, initial_cash=100.0, broker_fees=BrokerFees(interest_rate=rate),
                      latency=timedelta(microseconds=case["lat_us"]).total_seconds(), steps_delay=0)
     agg = {"latent": 0, "history": 0, "undeliverable": 0, "newdates": 0, "later-fold-reset": 0}
@@ -404,6 +428,8 @@ def finish_env(res, case, agg):
         res.tag("warm-up")
     if case["folds"]:
         res.tag("folds")
+    if case.get("inherited_observer"):
+        res.tag("observer-inherits-callbacks")
     return res
 
 
